@@ -47,7 +47,8 @@ pub const IT_INTO_ITER: u8 = 4;
 pub const IT_INTO_KEYS: u8 = 5;
 pub const IT_INTO_VALUES: u8 = 6;
 /// what is done with the iterator after the next/next_back calls: nothing, or one of the provided Iterator methods
-pub const FIN_NAMES: [&str; 8] = ["-", "last", "count", "nth1", "nth_back1", "size_hint", "fold", "rev_fold"];
+pub const FIN_NAMES: [&str; 9] = ["-", "last", "count", "nth1", "nth_back1", "size_hint", "fold", "rev_fold", "consumer_panics"];
+pub const CONSUMER_PANIC: &str = "consumer-panic (the code using the iterator panics; the iterator is dropped during unwinding)";
 pub const IT_NAMES: [&str; 7] = ["iter", "keys", "values", "drain", "into_iter", "into_keys", "into_values"];
 
 #[derive(Clone, Debug, PartialEq)]
@@ -282,6 +283,8 @@ macro_rules! drive {
             // (a runaway traversal must not eat the machine: far more items than any cache here holds is a failure in itself)
             6 => { $out.fin_ran = true; let mut acc = Vec::new(); it.fold((), |_, $x| { let y = $conv; acc.push(y); if acc.len() > 200_000 { panic!("runaway iteration: fold yielded more than 200000 items"); } }); $out.fin_items = acc; }
             7 => { $out.fin_ran = true; let mut acc = Vec::new(); it.rev().fold((), |_, $x| { let y = $conv; acc.push(y); if acc.len() > 200_000 { panic!("runaway iteration: rev().fold yielded more than 200000 items"); } }); $out.fin_items = acc; }
+            // the consumer panics while it holds the iterator: the iterator is dropped during unwinding and must clean up as usual
+            8 => { $out.fin_ran = true; if !$forget { let _keep = &mut it; panic!("{}", CONSUMER_PANIC); } else { std::mem::forget(it); } }
             _ => { if $forget { std::mem::forget(it); } }
         }
     }};
@@ -474,7 +477,11 @@ pub fn apply<S: HB>(caches: &mut Vec<Cache<S>>, cur: &mut usize, op: &Op, held: 
     }));
     valloc::fail_off();
     out.drops = window_end();
-    if let Err(e) = res { out.tag = "panic"; out.panic = Some(panic_msg(e)); }
+    if let Err(e) = res {
+        let m = panic_msg(e);
+        // a panic of the iterator's consumer is part of the workload, not of the library
+        if m.contains("consumer-panic") { out.tag = "unit"; } else { out.tag = "panic"; out.panic = Some(m); }
+    }
     drop(probe);
     out
 }
